@@ -24,13 +24,24 @@ Floor
 * `output_is_substitution`  : the reported output schema is the substitution of the winner's bindings
                               into its declared output pattern, and it exists.
 
-Ceiling (`rank_respects_instantiation`)
+* `match_complete`, `candidate_complete`, `noMatch_no_candidate`: the matcher finds the *least*
+                              bindings whenever any exist, so "no survivor" really means that no
+                              candidate can match.
+
+Ceiling (`rank_respects_instantiation`: "a substitution instance never ranks worse")
 * `RankRespectsInstantiation` (the full statement) is kept visible and is **refuted** for the rank
   the code computes: `rank_respects_instantiation_refuted` (`TSB[a:~A,b:~B]` is an instance of `~T`
-  and ranks 10001 > 10000).
-* `rank_ground_instance_strict` (the part that does hold, for all overloads): replacing type
-  variables by variable-free patterns never raises the rank and strictly lowers it as soon as one
-  replaced variable occurs.
+  and ranks 10001 > 10000).  What holds instead (`…_partial`):
+* `rank_ground_instance_le` / `rank_ground_instance_strict`: replacing type variables by concrete
+  types (`Concrete` leaves / concrete scalars / sizes) never raises the rank and strictly lowers it
+  as soon as one replaced variable occurs — all parameter lists, all depths, repeated variables.
+* `rank_structure_instance_le` / `rank_structure_instance_strict`: instantiating ONE variable `~x`
+  by a structure `r` over fresh variables does not rank worse (ranks strictly better) provided
+  `occurrences(x) · structural(r) + varCost(r, budget(x)) ≤ (<) budget(x)`;
+  `rank_structure_instance_bound` is the exact accounting.  The side condition is what the code's
+  numbers need; it fails for a bundle with two whole-time-series variables and below nesting depth 6.
+All three are proved against `LARGE_RANK`, `SCALAR_VAR_RANK`, `SCALAR_PARAM_VAR_RANK`, `decay` of
+`Model/Dispatch.lean` (the ground half only needs every budget to be ≥ 1).
 -/
 namespace HgVerif.Dispatch
 
@@ -349,6 +360,65 @@ theorem rank_ground_instance_strict (σ : GSubst) (ps : List Param) (k : Key) (h
     (by rw [h'.2.2 k, keyRankParams_apply]; simp [hd])
   omega
 
+/-- the accounting behind the structural half: after `x ↦ r` every stored budget is either one that
+    was stored before (other than `x`'s) or one of `r`'s own at `x`'s budget -/
+theorem rank_structure_instance_bound {ps : List Param} {x : Name} {r : TP} {b : Nat}
+    (hplain : plainParams x ps = true) (hb : keyRankParams (.ts x) ps = some b)
+    (hfresh : ∀ k v w, keyRankT k r v = some w → keyRankParams k ps = none) :
+    operatorRank (ps.map (instantiateParam (single x r))) + b ≤
+      operatorRank ps + occParams x ps * structT r + varCost r b := by
+  rw [operatorRank_eq, operatorRank_eq, structParams_instantiate]
+  have h' := rankAcc_spec (ps.map (instantiateParam (single x r)))
+  have h := rankAcc_spec ps
+  have hx : lookup (rankAcc ps).vars (.ts x) = some b := by rw [h.2.2]; exact hb
+  have hsum := sumVals_erase hx
+  have hcover := sumVals_le_of_cover (rankAcc (ps.map (instantiateParam (single x r)))).vars
+    (eraseKey (.ts x) (rankAcc ps).vars) (collectT r {} b).vars h'.1 (by
+      intro k v hk
+      rw [h'.2.2 k, keyRankParams_instantiate x r k ps hplain, hb] at hk
+      simp only [Option.bind_some] at hk
+      cases hg : keyRankT k r b with
+      | none =>
+        rw [hg, optMin_none_right] at hk
+        unfold mask at hk
+        split at hk
+        · cases hk
+        · rename_i hne
+          left
+          rw [lookup_erase_ne hne, h.2.2 k]
+          exact hk
+      | some w =>
+        rw [hg, hfresh k b w hg] at hk
+        right
+        rw [lookup_collect_fresh, hg]
+        unfold mask at hk
+        split at hk <;> simpa using hk)
+  unfold varCost
+  omega
+
+/-- **rank_respects_instantiation, one variable instantiated by structure (`…_partial`).**
+    Let `~x` occur in the parameter list only as an unconstrained variable, with (smallest) budget
+    `b`, and let `r` be any pattern whose variables are fresh.  If `r`'s structural count, once per
+    occurrence of `~x`, plus the cost of `r`'s own variables collected at budget `b` fits into `b`,
+    then the instance `ps[x ↦ r]` does not rank worse — and ranks strictly better when it fits
+    strictly.  (At the top level `b = 10000`: any single-variable structure such as `TSL[~U,~N]`,
+    `TSD[~k,~U]`, `TS[~s]` fits strictly; `TSB[a:~U,b:~V]` does not — see the refutation below.) -/
+theorem rank_structure_instance_le {ps : List Param} {x : Name} {r : TP} {b : Nat}
+    (hplain : plainParams x ps = true) (hb : keyRankParams (.ts x) ps = some b)
+    (hfresh : ∀ k v w, keyRankT k r v = some w → keyRankParams k ps = none)
+    (hbudget : occParams x ps * structT r + varCost r b ≤ b) :
+    operatorRank (ps.map (instantiateParam (single x r))) ≤ operatorRank ps := by
+  have := rank_structure_instance_bound hplain hb hfresh
+  omega
+
+theorem rank_structure_instance_strict {ps : List Param} {x : Name} {r : TP} {b : Nat}
+    (hplain : plainParams x ps = true) (hb : keyRankParams (.ts x) ps = some b)
+    (hfresh : ∀ k v w, keyRankT k r v = some w → keyRankParams k ps = none)
+    (hbudget : occParams x ps * structT r + varCost r b < b) :
+    operatorRank (ps.map (instantiateParam (single x r))) < operatorRank ps := by
+  have := rank_structure_instance_bound hplain hb hfresh
+  omega
+
 /-- **rank_respects_instantiation, the full statement** (kept visible): instantiating whole-time-series
     variables by arbitrary patterns never raises the rank. -/
 def RankRespectsInstantiation : Prop :=
@@ -379,6 +449,8 @@ private def ovInt : Overload := { label := 12, params := [.input (.conc (.ts 1))
 private def ovIntDup : Overload := { ovInt with label := 13 }
 private def argsInt : List Arg := [.ts (.ts 1), .ts (.ref (.ts 1))]
 private def argsMixed : List Arg := [.ts (.ts 1), .ts (.ts 3)]
+private def psEx : List Param := [.input (.var 0 []), .input (.tsl (.var 0 []) (.var 5 []))]
+private def rEx : TP := .tsd (.var 3 []) (.var 9 [])
 
 /-- three candidates match `(TS[int], REF[TS[int]])`; the concrete one wins with rank 1 -/
 example : resolveCall [ovGeneric, ovScalarGeneric, ovInt] argsInt
@@ -401,6 +473,27 @@ example : varOccurs (.ts 0) [.input (.var 0 []), .input (.tsl (.var 0 []) (.var 
     operatorRank ([.input (.var 0 []), .input (.tsl (.var 0 []) (.var 5 []))].map
       (applyParam ⟨fun n => if n = 0 then some (.ts 1) else none, fun _ => none, fun _ => none⟩)) = 1 := by
   decide
+/-- `rank_structure_instance_strict`'s hypotheses: in `f(~T, TSL[~T,~N])` the variable `T` (two plain
+    occurrences, smallest budget 5000) is instantiated by `TSD[~k,~U]` with fresh `k`, `U`:
+    `2·1 + (100 + 2500) < 5000`, and indeed the rank drops from 5001 to 2603 -/
+example : plainParams 0 psEx = true ∧ keyRankParams (.ts 0) psEx = some 5000 ∧
+    occParams 0 psEx * structT rEx + varCost rEx 5000 < 5000 ∧
+    operatorRank psEx = 5001 ∧ operatorRank (psEx.map (instantiateParam (single 0 rEx))) = 2603 := by decide
+example : ∀ k v w, keyRankT k rEx v = some w → keyRankParams k psEx = none := by
+  intro k v w h
+  cases k with
+  | ts n =>
+    have hn : n = 9 := by
+      simp [rEx, keyRankT, keyRankS] at h
+      exact h.1
+    subst hn
+    decide
+  | sc n =>
+    have hn : n = 3 := by
+      simp [rEx, keyRankT, keyRankS] at h
+      exact h.1
+    subst hn
+    decide
 /-- `inst_subst_exact`'s hypotheses hold there: the resolved type `TSL[TS[int],2]` has no wildcard -/
 example : subst (.tsl (.var 0 []) (.var 5 [])) { ts := [(0, .ts 1)], sz := [(5, 2)] } = some (.tsl (.ts 1) 2) ∧
     noWild (derefAll (.tsl (.ts 1) 2)) = true := by decide
